@@ -2822,6 +2822,9 @@ debug={debug},
 
         # If regex_groups is True, assign regexp matches to the return matrix.
         if regex_groups is True:
+            if bool(empty_branches) is False:
+                # drop the partial branches before cells replace the objects (a cell is never None)
+                branches = [branch for branch in branches if not any(ii is None for ii in branch)]
             return_matrix = []
             # branchspec = (r"^interfaces", r"\s+(\S+)", r"\s+(unit\s+\d+)", r"family\s+(inet)", r"address\s+(\S+)")
             # for idx_matrix, row in enumerate(self.find_object_branches(branchspec)):
